@@ -18,7 +18,7 @@ func init() {
 		Explanation: "(R1) ForwardAndClose registers, before anything else, a deferred function that closes both connections — so they are closed on every exit; " +
 			"(R2, sibling agreement of the two copy goroutines) each goroutine copies from one connection into an audit writer over the OTHER connection with that connection's own auditor, half-closes (CloseWrite) exactly the connection it wrote to and only if the copy ended without error, and reports its result on the shared channel on every path; the two goroutines are mirror images covering both directions; " +
 			"(R3) the function waits for as many results as there are copy goroutines (loop from 0 to 2, channel capacity 2) and returns early only on a copy error or cancellation; " +
-			"(R4, counters) controller.forward increments OpenConnections and TotalConnections of the state object under stateLock (with notification) for every accepted pair, and the per-connection goroutine decrements OpenConnections of that same captured state object after ForwardAndClose returned; the auditors add to TotalInboundData/TotalOutboundData of that same object under the lock; connections passed are the ones just opened on source and destination. " +
+			"(R4, counters) controller.forward increments OpenConnections and TotalConnections of the state object under stateLock (with notification) for every accepted pair, and the per-connection goroutine decrements OpenConnections of that same captured state object after ForwardAndClose returned; the auditors add to TotalInboundData/TotalOutboundData of that same object under the lock; connections passed are the ones just opened on source and destination; no variable the per-connection goroutine captures is reassigned by a later round of the accept loop (each goroutine owns its pair). " +
 			"(R5) the audit writer reports to the auditor, unconditionally, uint64(n) for the count n of every downstream write (a partially successful write that also failed is counted) and returns the downstream result unchanged; " +
 			"Not decided: byte exactness (io.Copy), schedules.",
 		Assumptions: []string{"io.Copy copies until EOF or error"},
